@@ -65,7 +65,7 @@ NOT_APPLICABLE = {
 }
 
 # properties that will be claimed but whose check is not built yet
-PENDING = {k: "claimed in DESIGN.md; its check is not built yet in this commit" for k in ("C10 C11 C12 C13 C16").split()}
+PENDING = {k: "claimed in DESIGN.md; its check is not built yet in this commit" for k in ("C10 C11 C12 C13").split()}
 
 PROPS = {}
 
@@ -246,3 +246,20 @@ _p('C14', 'fault_enumeration',
               'add long random sequences with state carried between calls',
    technique='deterministic simulation: complete enumeration of the callback fault plan + seeded sequences vs AdaptModel (PEP 246 order) incl. stub call log',
    design_ref='DESIGN.md 3/C14')
+
+_p('C16', 'exploration',
+   [Part('components', {}, configs=[(C, 5), (PY, 4), (C_H1, 1), (PY_H7, 1)], quick=9000, thorough=400000, name='components', timeout=40.0)],
+   rule='one case = one seeded history (5-40 ops) of the eight register/unregister methods on 1-3 Components objects (with bases) using hashable, '
+        'unhashable, equal-but-distinct and identical components, names, related provided interfaces, factory=, event=False, implicit forms, '
+        're-initialisation, __bases__ changes, dropping the volatile cache, gc; after every op the four listings, return values and recorded '
+        'events are compared with ComponentsModel, every query method with fresh adapter registries populated from the model, and '
+        'rebuildUtilityRegistryFromLocalCache() must report nothing to repair; distinct_nontrivial = distinct (#utilities, #adapters, '
+        '#subscription adapters, #handlers, #unhashable) states',
+   assumptions=['registerAdapter of an existing key may or may not announce the removal of the replaced registration (statement silent); a bulk '
+                'unregisterSubscriptionAdapter/unregisterHandler removing k > 1 entries may emit 1 or k events',
+                'only leaf Components are re-initialised', 'getAllUtilitiesRegisteredFor is compared up to ==, not identity',
+                REAL_STUB + '; event sink zope.interface.registry.notify replaced by a recorder (zope.event not exercised)'],
+   level_text='seeded search over Components histories against a plain-container reference model plus registries rebuilt from the model; sampled evidence',
+   technique='deterministic simulation: seeded register/unregister histories vs ComponentsModel (listings, queries via rebuilt registries, events, return values)',
+   design_ref='DESIGN.md 3/C16', expected_probes=['unhashable-utility', 'utility-replaced', 'same-or-equal-utility-under-several-names',
+                                                  'unregistered-one-of-several-names', 're-initialised', 'components-bases-changed'])
